@@ -417,7 +417,12 @@ def gen_program(rng: random.Random, knobs=None):
                 a.task == n and a.output == 'failed'
                 for sec in prog.sections for e, _ in sec.lines
                 for a in atoms(e))
-    if rng.random() < k['p_runahead']:
+    has_future = any(a.kind == 'rel' and a.off > 0 for sec in prog.sections
+                     for e, _ in sec.lines for a in atoms(e))
+    if rng.random() < k['p_runahead'] and (
+            not has_future or k.get('future_with_runahead')):
+        # (a future trigger whose target is not yet in the pool does not
+        # extend the runahead limit: that combination is C04's business)
         prog.runahead = f'P{rng.randint(0, 4)}'
     return prog
 
